@@ -156,23 +156,30 @@ def strip_none_repetitions(rules):
             return alts_noneable(it["alts"])
         return it["sym"] in noneable
 
-    ch = True
-    while ch:
-        ch = False
-        for n, alts in rules:
-            if n not in noneable and alts_noneable(alts):
-                noneable.add(n)
-                ch = True
+    # stripping `X*` down to `X` can make the enclosing rule None-valued in turn: repeat until nothing changes
+    changed = True
+    while changed:
+        changed = False
+        ch = True
+        while ch:
+            ch = False
+            for n, alts in rules:
+                if n not in noneable and alts_noneable(alts):
+                    noneable.add(n)
+                    ch = True
 
-    def walk(alts):
-        for a in alts:
-            for it in a:
-                if it.get("kind") == "grp":
-                    walk(it["alts"])
-                if it["mult"] in ("+", "*") and base_noneable(it):
-                    it["mult"], it["sep"] = "", None
-    for _, alts in rules:
-        walk(alts)
+        def walk(alts):
+            hit = False
+            for a in alts:
+                for it in a:
+                    if it.get("kind") == "grp":
+                        hit = walk(it["alts"]) or hit
+                    if it["mult"] in ("+", "*") and base_noneable(it):
+                        it["mult"], it["sep"] = "", None
+                        hit = True
+            return hit
+        for _, alts in rules:
+            changed = walk(alts) or changed
     return rules
 
 
